@@ -41,6 +41,9 @@ def main(argv):
     only = argv[2] if len(argv) > 2 else None
     t_start = time.time()
     evidence_path = os.path.join(ROOT, 'evidence', pid + '.json')
+    if only or os.path.realpath(REPO) != '/repo':
+        # partial runs and runs against a scratch tree never touch the evidence that is committed
+        evidence_path = os.path.join(os.environ['GM2V_WORK'], 'evidence-scratch', pid + '.json')
     try:
         mod = importlib.import_module('contracts.' + pid.lower())
     except Exception as e:
